@@ -77,6 +77,7 @@ type prover struct {
 	fn    *ssa.Function
 	site  ssa.Instruction
 	atoms map[string]ssa.Value // atom key -> representative value (for len atoms: the measured value)
+	summaryLoads map[string][]ssa.Instruction // len-atom key -> helper calls whose summary fact mentions it (reads for the kill check)
 	isLen map[string]bool
 	facts []fact
 	neq   []lin // e != 0
@@ -281,35 +282,15 @@ func (p *prover) intFacts(k string, v ssa.Value) {
 			p.addFact(self, "non-negative by construction (all producers are non-negative)")
 		}
 		// callee summaries: position helpers bounded by the length of a receiver field
-		if callee := x.Common().StaticCallee(); callee != nil && w.isMain(callee) {
-			if ref, ok := w.posSummary(callee, map[*ssa.Function]bool{}); ok {
-				recv := callArg(x, -1)
-				if recv != nil {
-					lk := "len(*&" + w.termKey(recv) + "." + strings.SplitN(ref, ".", 2)[1] + ")"
-					if _, known := p.atoms[lk]; known || true {
-						// only usable when a load of that field on the same receiver exists in this function
-						for _, b := range p.fn.Blocks {
-							for _, in := range b.Instrs {
-								if u, isU := in.(*ssa.UnOp); isU && u.Op == token.MUL {
-									if fa, isFA := u.X.(*ssa.FieldAddr); isFA && fieldRef(fa) == ref && w.termKey(fa.X) == w.termKey(recv) {
-										key := p.lenKey(u)
-										o := newLin()
-										o.c[key] = 1
-										p.addFact(self, "summary: "+w.fname(callee)+" >= 0")
-										p.ge(o, self, "summary: "+w.fname(callee)+" <= len("+ref+")")
-										return
-									}
-								}
-							}
-						}
-					}
-					_ = lk
-				}
-			}
+		if x.Type() != nil && isIntegerType(x.Type()) {
+			p.summaryFacts(self, x)
 		}
 	case *ssa.Extract:
 		if w.nonNeg(v, map[ssa.Value]bool{}, 0) {
 			p.addFact(self, "non-negative by construction")
+		}
+		if cc, ok := x.Tuple.(*ssa.Call); ok && x.Index == 0 {
+			p.summaryFacts(self, cc)
 		}
 	case *ssa.Phi:
 		// loop counters: phi(c0, phi + step) with step >= 0 and c0 constant  => phi >= c0
@@ -696,6 +677,87 @@ func (w *World) nonNeg(v ssa.Value, seen map[ssa.Value]bool, d int) bool {
 	return false
 }
 
+// summaryFacts: the call's first result is a position helper's result: 0 <= r <= len(recv.field); when the helper
+// returns (position, error) with every nil-error return a range index, r < len(recv.field) wherever the call's error
+// is known to be nil at the site. The call counts as a read of the field for the kill check.
+func (p *prover) summaryFacts(self lin, x *ssa.Call) {
+	w := p.w
+	callee := x.Common().StaticCallee()
+	if callee == nil || !w.isMain(callee) {
+		return
+	}
+	ref, ok := w.posSummary(callee, map[*ssa.Function]bool{})
+	if !ok {
+		return
+	}
+	recv := callArg(x, -1)
+	if recv == nil {
+		return
+	}
+	for _, b := range p.fn.Blocks {
+		for _, in := range b.Instrs {
+			u, isU := in.(*ssa.UnOp)
+			if !isU || u.Op != token.MUL {
+				continue
+			}
+			fa, isFA := u.X.(*ssa.FieldAddr)
+			if !isFA || fieldRef(fa) != ref || w.termKey(fa.X) != w.termKey(recv) {
+				continue
+			}
+			key := p.lenKey(u)
+			o := newLin()
+			o.c[key] = 1
+			p.addFact(self, "summary: "+w.fname(callee)+" >= 0")
+			p.ge(o, self, "summary: "+w.fname(callee)+" <= len("+ref+")")
+			if p.summaryLoads == nil {
+				p.summaryLoads = map[string][]ssa.Instruction{}
+			}
+			p.summaryLoads[key] = append(p.summaryLoads[key], x)
+			if w.posStrictOnNilError(callee, ref) {
+				// error of this call known nil at the site?
+				isErr := func(a Atom) bool {
+					e, isE := a.X.(*ssa.Extract)
+					return a.Kind == "nil" && isE && e.Tuple == ssa.Value(x) && e.Index == 1
+				}
+				if w.requires(p.fn, p.site, isErr, true) {
+					p.ge(o.add(lin{c: map[string]int64{}, k: 1}, -1), self, "summary: "+w.fname(callee)+" < len("+ref+") when its error is nil")
+				}
+			}
+			return
+		}
+	}
+}
+
+// posStrictOnNilError: fn returns (int, error); every return whose error may be nil returns a range index over a load
+// of recv.field (so the position is a valid index).
+func (w *World) posStrictOnNilError(fn *ssa.Function, ref string) bool {
+	res := fn.Signature.Results()
+	if res.Len() != 2 || res.At(1).Type().String() != "error" {
+		return false
+	}
+	loops := rangeLoops(fn)
+	for _, r := range returnsUnder(fn, nil) {
+		allErr := allVals(phiLeaves(r.Results[1]), w.isFreshError)
+		if allErr {
+			continue
+		}
+		for _, v := range phiLeaves(r.Results[0]) {
+			matched := false
+			for _, rl := range loops {
+				if rl.Idx != nil && strip(rl.Idx) == strip(v) && rl.Body.Dominates(r.Block()) {
+					if rf, base := loadedField(rl.Over); rf == ref && isParam(fn, base, 0) {
+						matched = true
+					}
+				}
+			}
+			if !matched {
+				return false
+			}
+		}
+	}
+	return true
+}
+
 // posSummary: fn returns a position in [0, len(recv.field)]: every return value is the constant 0, a range index over
 // a load of recv.field, or the result of another such function on the same receiver.
 var posMemo = map[*ssa.Function]string{}
@@ -896,6 +958,7 @@ func (p *prover) killedAtom() string {
 				loads = append(loads, in)
 			}
 		})
+		loads = append(loads, p.summaryLoads[k]...)
 		if len(loads) < 2 {
 			continue
 		}
